@@ -49,7 +49,7 @@ type RaftGroup struct {
 	log           *log.Entry
 }
 
-func startRaftNode(id uint64, nodeIds []uint64, storage wal.WAL, logger *log.Entry) (etcdRaft.Node, error) {
+func startRaftNode(id uint64, address string, nodeIds []uint64, storage wal.WAL, logger *log.Entry) (etcdRaft.Node, error) {
 	raftConfig := &etcdRaft.Config{
 		ID:              id,
 		ElectionTick:    10,
@@ -73,7 +73,14 @@ func startRaftNode(id uint64, nodeIds []uint64, storage wal.WAL, logger *log.Ent
 		}
 		var peers []etcdRaft.Peer
 		for _, nodeId := range nodeIds {
-			peers = append(peers, etcdRaft.Peer{ID: nodeId})
+			peer := etcdRaft.Peer{ID: nodeId}
+			if nodeId == id {
+				// The bootstrap entry for this node must carry its address like
+				// every later join does: members rebuild their address book
+				// from these entries when they replay the log.
+				peer.Context = []byte(address)
+			}
+			peers = append(peers, peer)
 		}
 		return etcdRaft.StartNode(raftConfig, peers), nil
 	} else {
@@ -108,7 +115,7 @@ func NewRaftGroup(id uuid.UUID, nodeIds []uint64, storage wal.WAL, transport *Ra
 
 	storage = verifWrapWAL(transport.NodeId(), id, storage)
 	ctx, ctxCancel := context.WithCancel(context.Background())
-	raftNode, err := startRaftNode(transport.NodeId(), nodeIds, storage, logger)
+	raftNode, err := startRaftNode(transport.NodeId(), transport.Address(), nodeIds, storage, logger)
 	if err != nil {
 		return nil, err
 	}
